@@ -320,6 +320,23 @@ func runC11(c *core.Ctx) error {
 						v = core.Map()
 					}
 				}
+				// sometimes the builder first takes a pooled container by AssignNode and is then Reset WITHOUT Build (or is left
+				// half-assembled and Reset): whatever it held must not be written by what it assembles next
+				if len(pool) > 0 && r.Chance(1, 3) {
+					src := pool[r.Intn(len(pool))].n
+					func() {
+						defer func() { recover() }()
+						if r.Bool() {
+							_ = reusable.AssignNode(src)
+						} else if src.Kind() == datamodel.Kind_List {
+							if la, err := reusable.BeginList(src.Length()); err == nil {
+								_ = la.AssembleValue().AssignNode(src)
+							}
+						}
+					}()
+					reusable.Reset()
+					what = "assign-then-reset-without-build"
+				}
 				err = core.Assemble(reusable, v, r)
 				if err == nil {
 					add(reusable.Build(), "reused-builder")
@@ -327,7 +344,9 @@ func runC11(c *core.Ctx) error {
 					reusable = nil
 				}
 				sharing = true
-				what = "reset-reuse"
+				if what != "assign-then-reset-without-build" {
+					what = "reset-reuse"
+				}
 			case 4: // decode
 				v := genForCodec(r, []uint64{0x71, 0x0129}[r.Intn(2)])
 				n, _ := core.BuildBasic(v, nil)
